@@ -80,6 +80,27 @@ start :: fn do
 end
 ''', {"a": (0, 100), "b": (0, 100)})
 
+T("tuple_mixed_components", "tuple-arithmetic-on-string-float-and-nested-components", '''
+start :: fn do
+    s := ?s:str
+    t := (s, ?a)
+    u := ("1", 2)
+    print(t + u)
+    print(u + u)
+    w := (("x", s), (?a, 1.5))
+    print(w + w)
+    acc := ("", 0)
+    acc += t
+    acc += ("2", 3)
+    print(acc)
+    print(acc == (s + "2", ?a + 3))
+    f := (1.5, ?a)
+    print(f + f)
+    print(f * f)
+    print(f - (0.5, 1))
+end
+''', {"a": (0, 3)})
+
 T("tuple_order", "tuple-lexicographic-order", '''
 start :: fn do
     t := (?a, ?b)
